@@ -90,6 +90,7 @@ type Contract struct {
 	Callsites map[string][]*Clause // callee key -> assertions checked at each call to it
 	AtReturn  []*Clause            // assertions over locals checked at every return
 	Refines   string               // key of the interface-level contract this method must satisfy
+	Skip      string               // not verified, with the reason (listed in the evidence)
 	Trusted   bool
 	Inline    bool // force inlining at call sites (no modular use)
 	NoPanic   bool
@@ -515,6 +516,8 @@ func (db *SpecDB) loadFile(path, pkgShort string, slashAt bool) error {
 				}
 				curLoop.Invariants = append(curLoop.Invariants, cl)
 			}
+		case "skip":
+			cur.Skip = strings.TrimSpace(rest)
 		case "refines":
 			cur.Refines = strings.TrimSpace(rest)
 		case "atreturn":
